@@ -203,8 +203,8 @@ fn gen_case(tape: Vec<u8>) -> Case {
         if let Some(sname) = with_members.get(u.below(with_members.len().max(1))) {
             let def = model.graph.get(sname).unwrap();
             let mi = u.below(def.members.len());
-            let undefined = ["Undefined", "uint7", "bytes33", "int", "uint", "Bytes32", "address payable", "bytes0", "uint264", "string "][u.below(10)];
-            let suffix = ["", "[]", "[2]"][u.below(3)];
+            let undefined = ["Undefined", "uint7", "bytes33", "int", "uint", "Bytes32", "address payable", "bytes0", "uint264", "string ", "uint0256", "bytes032", "int08", "uint008"][u.below(14)];
+            let suffix = ["", "[]", "[2]", "[02]", "[+1]"][u.below(5)];
             if let Some(J::Arr(members)) = at(&mut doc, &[Step::Key("types".into()), Step::Key((*sname).clone())]) {
                 if let Some(J::Obj(kv)) = members.get_mut(mi) {
                     for (k, v) in kv.iter_mut() {
@@ -340,7 +340,9 @@ fn gen_case(tape: Vec<u8>) -> Case {
 
 fn judge(c: &Case, cls: &mut Classifier) -> Verdict {
     let docs = crate::engine::truncate(&c.doc, 900);
-    let got = catch(|| serde_json::from_str::<TypedData>(&c.doc).map(|t| (t.domain_separator().0, t.message_hash().0, t.signing_message().0)).map_err(|e| e.to_string()));
+    let got = crate::isolate::inflight("typeddata", c.doc.as_bytes(), "generated", || {
+        catch(|| serde_json::from_str::<TypedData>(&c.doc).map(|t| (t.domain_separator().0, t.message_hash().0, t.signing_message().0)).map_err(|e| e.to_string()))
+    });
     let got = match got {
         Ok(g) => g,
         Err(p) => return fail("result or error", p, format!("typed-data handling panicked ({} / {}): {docs}", c.mutation, c.detail)),
